@@ -102,11 +102,21 @@ func readerCase(w *bufio.Writer, id string, cmds []rcmd, cuts []int, trailing []
 	for _, c := range cmds {
 		fmt.Fprintf(w, "G %s %d %s\n", c.name, len(c.args), joinToks(c.args))
 	}
+	runReader(w, stream, cuts, len(cmds)+1)
+}
+
+// readerRaw: an arbitrary (possibly malformed) byte stream
+func readerRaw(w *bufio.Writer, id string, stream []byte, cuts []int, maxCmds int) {
+	fmt.Fprintf(w, "RW %s %d %s %s\n", id, maxCmds, intsTok(cuts), tokBytes(stream))
+	runReader(w, stream, cuts, maxCmds)
+}
+
+func runReader(w *bufio.Writer, stream []byte, cuts []int, maxCmds int) {
 	cr := &chunkReader{data: append([]byte(nil), stream...), cuts: append([]int(nil), cuts...)}
 	rd := redis.NewReader(cr)
 	var kept []redis.Command // what a handler may keep (queued closures in MULTI hold the command)
 	var keptTok []string
-	for i := 0; i < len(cmds)+1; i++ {
+	for i := 0; i < maxCmds; i++ {
 		var err error
 		p := safe(func() { err = rd.ReadCommand() })
 		if p != "" {
@@ -280,6 +290,49 @@ func readerMain(args []string) {
 		}
 		readerCase(w, fmt.Sprintf("rnd-%d", c), cmds, cuts, trailing)
 	}
+	// hostile byte streams
+	nm := 400
+	if *tier == "thorough" {
+		nm = 8000
+	}
+	for c := 0; c < nm; c++ {
+		var cuts []int
+		if r.intn(2) == 0 {
+			for i := 0; i < 30; i++ {
+				cuts = append(cuts, 1+r.intn(4))
+			}
+		}
+		readerRaw(w, fmt.Sprintf("mal-%d", c), r.malformed(), cuts, 3)
+	}
+}
+
+// malformed: grammar-based mutations of a valid frame
+func (r *rng) malformed() []byte {
+	lens := []string{"-1", "-5", "0", "5", "3", "1000000", "536870912", "536870913", "9223372036854775807", "9223372036854775808",
+		"-9223372036854775808", "x", "", "+3", "03", " 3", "3 ", "1e3"}
+	term := []string{"\r\n", "\n", "\r", "", "\r\r\n", "\n\n"}
+	var b []byte
+	switch r.intn(10) {
+	case 0: // bad array count
+		b = []byte("*" + r.pick(lens) + r.pick(term) + "$3\r\nGET\r\n$1\r\nk\r\n")
+	case 1, 2, 3: // bad bulk length
+		b = []byte("*2\r\n$3\r\nGET\r\n$" + r.pick(lens) + r.pick(term) + "k" + r.pick(term))
+	case 4: // wrong type byte
+		b = []byte("*2\r\n" + r.pick([]string{"+", ":", "-", "*", "#", "\x00"}) + "3\r\nGET\r\n$1\r\nk\r\n")
+	case 5: // truncated
+		full := []byte("*3\r\n$3\r\nSET\r\n$1\r\nk\r\n$5\r\nhello\r\n")
+		b = full[:r.intn(len(full))]
+	case 6: // garbage after a valid frame
+		b = append([]byte("*1\r\n$4\r\nPING\r\n"), r.bytes(1+r.intn(20))...)
+		b[len("*1\r\n$4\r\nPING\r\n")] = '*'
+	case 7: // data shorter / longer than announced
+		b = []byte("*2\r\n$4\r\nECHO\r\n$" + r.pick([]string{"2", "10", "4"}) + "\r\nabcd\r\n*1\r\n$4\r\nPING\r\n")
+	case 8: // nested / huge count with little data
+		b = []byte("*" + r.pick([]string{"100", "1000000"}) + "\r\n$1\r\na\r\n")
+	default:
+		b = append([]byte("*"), r.bytes(r.intn(30))...)
+	}
+	return b
 }
 
 func make1s(n int) []int {
